@@ -11,8 +11,44 @@ static LIVE_BLOCKS: AtomicI64 = AtomicI64::new(0);
 static LIVE_BYTES: AtomicI64 = AtomicI64::new(0);
 static TOTAL_ALLOCS: AtomicU64 = AtomicU64::new(0);
 
+// Allocation-failure injection (fault enumeration): while a codec call is running (CODEC_DEPTH > 0)
+// the FAIL_COUNTDOWN-th allocation request is refused once. A codec that cannot get memory must
+// fail loudly (std aborts the process for `Vec::push` and friends); what it must not do is carry on
+// and return a different answer.
+static FAIL_COUNTDOWN: AtomicI64 = AtomicI64::new(-1);
+static CODEC_DEPTH: AtomicI64 = AtomicI64::new(0);
+static FAIL_FIRED: AtomicBool = AtomicBool::new(false);
+
+pub fn arm_failure(nth: i64) {
+    FAIL_FIRED.store(false, Ordering::SeqCst);
+    FAIL_COUNTDOWN.store(nth, Ordering::SeqCst);
+}
+pub fn failure_fired() -> bool {
+    FAIL_FIRED.load(Ordering::SeqCst)
+}
+pub fn enter_codec() {
+    CODEC_DEPTH.fetch_add(1, Ordering::SeqCst);
+}
+pub fn leave_codec() {
+    CODEC_DEPTH.fetch_sub(1, Ordering::SeqCst);
+}
+
+#[inline]
+fn refuse_now() -> bool {
+    if FAIL_COUNTDOWN.load(Ordering::Relaxed) > 0 && CODEC_DEPTH.load(Ordering::Relaxed) > 0 {
+        if FAIL_COUNTDOWN.fetch_sub(1, Ordering::SeqCst) == 1 {
+            FAIL_FIRED.store(true, Ordering::SeqCst);
+            return true;
+        }
+    }
+    false
+}
+
 unsafe impl GlobalAlloc for CountingAlloc {
     unsafe fn alloc(&self, l: Layout) -> *mut u8 {
+        if refuse_now() {
+            return std::ptr::null_mut();
+        }
         let p = System.alloc(l);
         if !p.is_null() && TRACK.load(Ordering::Relaxed) {
             LIVE_BLOCKS.fetch_add(1, Ordering::Relaxed);
@@ -29,6 +65,9 @@ unsafe impl GlobalAlloc for CountingAlloc {
         System.dealloc(p, l)
     }
     unsafe fn realloc(&self, p: *mut u8, l: Layout, new_size: usize) -> *mut u8 {
+        if new_size > l.size() && refuse_now() {
+            return std::ptr::null_mut();
+        }
         let q = System.realloc(p, l, new_size);
         if !q.is_null() && TRACK.load(Ordering::Relaxed) {
             LIVE_BYTES.fetch_add(new_size as i64 - l.size() as i64, Ordering::Relaxed);
